@@ -61,6 +61,14 @@ func (c *Conn) Close() error {
 	}
 	return nil
 }
+
+// IsClosed reports whether Close was called.
+func (c *Conn) IsClosed() bool {
+	c.mu.Lock()
+	defer c.mu.Unlock()
+	return c.Closed
+}
+
 func (c *Conn) LocalAddr() net.Addr                { return addr{} }
 func (c *Conn) RemoteAddr() net.Addr               { return addr{} }
 func (c *Conn) SetDeadline(t time.Time) error      { return nil }
